@@ -13,7 +13,7 @@ FUNCS = ['pyg_base._pandas:add_', 'pyg_base._pandas:sub_', 'pyg_base._pandas:mul
          'pyg_base._pandas:_mask', 'pyg_base._pandas:mask2v', 'pyg_base._reducer:reducer']
 BOUNDS = dict(operands = '2..3 operands, each a datetime-indexed Series of 0..2 rows (thorough 3) whose stamps are symbolic days inside a common 7-day window (overlapping, disjoint, nested, empty are solver cases) '
                          'or a symbolic scalar; values symbolic floats incl. NaN and 0', policies = 'index policy ij and oj; lists of operands')
-OUTSIDE = ['DataFrames and the column policies (no DataFrame model)', 'floating-point rounding (floats are exact extended reals; both implementation and oracle are evaluated in the same arithmetic)', 'pow_, df_std']
+OUTSIDE = ['frames with more than 3 columns or more than 2 rows, single-column frames (they act as series by design), comparisons / min_ / max_ / df_sum / df_mean / df_count on frames', 'floating-point rounding (floats are exact extended reals; both implementation and oracle are evaluated in the same arithmetic)', 'pow_, df_std']
 ASSUMPTIONS = ['pandas replaced by the minipd model, validated against the real pandas each run (index intersection/union, reindex, aligned arithmetic, division by zero -> inf/nan as numpy)']
 
 def series(c, name, n, base, nan = True):
@@ -116,6 +116,102 @@ def h_agg(which, n):
             else: c.check('mean-skips-nan', feq(g[1], good[0] if len(good) == 1 else (good[0] + good[1]) / 2))
     return h
 
+# ---------------------------------------------------------------- multi-column frames and the column policy
+COLSETS = [('a', 'c'), ('a', 'b'), ('b', 'c'), ('a', 'b', 'c')]        # frames with a single column act as a series (broadcast over the other side's columns) by design: not used here
+NEUTRAL = dict(add = 0.0, sub = 0.0, mul = 1.0, div = 1.0)
+
+def frame(c, name, n, base, colset):
+    td = shims.shim_timedelta if c.mode == 'sym' else _rdt.timedelta
+    offs = []
+    for i in range(n):
+        o = c.int('%s.o%d' % (name, i), 0, 4)
+        if i: c.assume(o > offs[-1])
+        offs.append(o)
+    ts = [base + td(days = o) for o in offs]
+    cols = {k: [c.float('%s.%s%d' % (name, k, i), allow = (core.FIN, core.NAN), halves = 8) for i in range(n)] for k in colset}
+    if c.mode == 'sym': f = minipd.DataFrame({k: list(v) for k, v in cols.items()}, index = list(ts))
+    else:
+        import pandas as rpd
+        f = rpd.DataFrame({k: [float(x) for x in v] for k, v in cols.items()}, index = rpd.DatetimeIndex(list(ts)), dtype = float)
+    return f, offs, cols
+
+def frame_cells(f):
+    """{column: [(label, value)]} of a minipd / real frame"""
+    if isinstance(f, minipd.DataFrame): return {c: list(zip(f._i._l, f._c[c])) for c in f._cols}
+    return {c: list(zip([t.to_pydatetime() for t in f.index], [float(v) for v in f[c].values])) for c in f.columns}
+
+def h_frames(op, na, nb, ia, ib, join, columns):
+    def h(c):
+        Pm = P(); base = c.day('base')
+        A, oa, ca = frame(c, 'A', na, base, COLSETS[ia]); B, ob, cb = frame(c, 'B', nb, base, COLSETS[ib])
+        r = getattr(Pm, op + '_')(A, B, join = join, columns = columns)
+        sa, sb = set(COLSETS[ia]), set(COLSETS[ib])
+        wantcols = sorted(sa & sb) if columns == 'ij' else sorted(sa | sb)
+        offs = [o for o in oa if lookup(ob, ob, o) is not None] if join == 'ij' else union_offsets([oa, ob])
+        got = frame_cells(r)
+        c.check('columns-are-the-%s-of-the-operand-columns' % ('intersection' if columns == 'ij' else 'union'), sorted(got.keys()) == wantcols)
+        for col in wantcols:
+            c.check('index-per-policy', len(got[col]) == len(offs) and all(key(g[0]) == key(base) + o * core.US_DAY for g, o in zip(got[col], offs)))
+            for g, o in zip(got[col], offs):
+                x = (lookup(oa, ca[col], o) if col in ca else NEUTRAL[op]); y = (lookup(ob, cb[col], o) if col in cb else NEUTRAL[op])     # a column missing on one side acts as the neutral element
+                x = NANF if x is None else x; y = NANF if y is None else y
+                c.check('cell==a-op-b-with-neutral-element-for-a-missing-column', feq(g[1], opf(op, x, y)))
+    return h
+
+def h_sub_list(columns):
+    """sub_(a, [b, c]) subtracts the sum of the list, under the same column policy"""
+    def h(c):
+        Pm = P(); base = c.day('base')
+        A, oa, ca = frame(c, 'A', 1, base, ('a', 'b')); B, ob, cb = frame(c, 'B', 1, base, ('b', 'c')); C, oc, cc = frame(c, 'C', 1, base, ('a', 'c'))
+        c.assume(X.And(oa[0] == ob[0], ob[0] == oc[0]))
+        r = frame_cells(Pm.sub_(A, [B, C], columns = columns))
+        want = ['a', 'b', 'c'] if columns == 'oj' else []
+        c.check('columns', sorted(r.keys()) == want)
+        for col in want:
+            x = ca[col][0] if col in ca else 0.0; y = (cb[col][0] if col in cb else 0.0); z = (cc[col][0] if col in cc else 0.0)
+            c.check('a-minus-the-sum-of-the-list-with-missing-columns-as-zero', len(r[col]) == 1 and feq(r[col][0][1], x - (y + z)))
+    return h
+
+def gate_frames(stride = 1):
+    """the real add_/sub_/mul_/div_ under the real pandas vs under the minipd frame model, on an exhaustive small domain of two-column frames"""
+    import pandas as rpd, numpy as np, itertools, pyg_base._pandas as RP
+    nan = float('nan'); grid = [_rdt.datetime(2020, 1, 1) + _rdt.timedelta(days = i) for i in range(3)]
+    rowsets = [(), (0,), (1,), (0, 1), (1, 2)]; vals = [2.0, 0.0, nan]
+    cases = []
+    for ia, ib in itertools.product(range(3), repeat = 2):
+        for ra, rb in itertools.product(rowsets, repeat = 2):
+            for k, seedv in enumerate(itertools.product(vals, repeat = 2)):
+                va = {col: [seedv[(i + j) % 2] + (i if seedv[(i + j) % 2] == 2.0 else 0) for i in range(len(ra))] for j, col in enumerate(COLSETS[ia])}
+                vb = {col: [seedv[(i + j + 1) % 2] for i in range(len(rb))] for j, col in enumerate(COLSETS[ib])}
+                cases.append((ra, va, rb, vb))
+    cases = cases[::stride]
+    def run(Pm, mk):
+        out = []
+        for ra, va, rb, vb in cases:
+            A = mk(va, [grid[i] for i in ra]); B = mk(vb, [grid[i] for i in rb])
+            res = []
+            for op in ('add', 'sub', 'mul', 'div'):
+                for join in ('ij', 'oj'):
+                    for cols in ('ij', 'oj'):
+                        try: res.append(frame_cells(getattr(Pm, op + '_')(A, B, join = join, columns = cols)))
+                        except Exception as e: res.append('raised %s' % type(e).__name__)
+            out.append(res)
+        return out
+    with np.errstate(all = 'ignore'):
+        real = run(RP, lambda v, i: rpd.DataFrame({k: list(x) for k, x in v.items()}, index = rpd.DatetimeIndex(i), dtype = float))
+    Pm = setup_pandas()
+    model = run(Pm, lambda v, i: minipd.DataFrame({k: list(x) for k, x in v.items()}, index = list(i)))
+    n = 0
+    def same(x, y):
+        if isinstance(x, str) or isinstance(y, str): return isinstance(x, str) and isinstance(y, str)
+        if sorted(x.keys()) != sorted(y.keys()): return False
+        return all(len(x[c]) == len(y[c]) and all(p[0] == q[0] and (p[1] == q[1] or (p[1] != p[1] and q[1] != q[1])) for p, q in zip(x[c], y[c])) for c in x)
+    for case, ra_, ma_ in zip(cases, real, model):
+        for x, y in zip(ra_, ma_):
+            n += 1
+            if not same(x, y): return False, dict(mismatch = str(case)[:300], real = str(x)[:300], model = str(y)[:300])
+    return True, dict(comparisons = n, cases = len(cases))
+
 def obligations(tier):
     q = tier == 'quick'; N = 2 if q else 3
     S = setup_pandas
@@ -133,6 +229,16 @@ def obligations(tier):
     for op in ('add', 'mul'):
         for join in ('ij', 'oj'):
             obs.append(Ob('reduce.%s.%s' % (op, join), h_reduce(op, 1 if q else 2, join), setup = S, budget_s = 300 if q else 1500, desc = '%s_ of a list of three operands reduces left to right' % op))
+    obs.append(Ob('gate.frame-model', (lambda: gate_frames(4)) if q else gate_frames, engine = 'gate', budget_s = 900, desc = 'add_/sub_/mul_/div_ under the DataFrame model == under the real pandas on an exhaustive small domain of frames'))
+    for op in ('add', 'sub', 'mul', 'div'):
+        for columns in ('ij', 'oj'):
+            for ia, ib in ([(1, 2), (0, 1), (1, 1), (3, 2)] if q else [(i, j) for i in range(4) for j in range(4)]):
+                for (na, nb) in ([(1, 1)] if q else [(1, 1), (2, 1), (1, 2), (0, 1)]):
+                    for join in ('ij', 'oj'):
+                        obs.append(Ob('frames.%s.%s-cols.%s.%s.%s.%dx%d' % (op, columns, ''.join(COLSETS[ia]), ''.join(COLSETS[ib]), join, na, nb), h_frames(op, na, nb, ia, ib, join, columns), setup = S, budget_s = 300 if q else 1500,
+                                      desc = '%s_ of frames with columns %s and %s, column policy %s, index policy %s' % (op, COLSETS[ia], COLSETS[ib], columns, join)))
+    for columns in ('oj',):          # under 'ij' the pre-summed list may collapse to one column, which then broadcasts (single-column frames act as series)
+        obs.append(Ob('frames.sub-list.%s' % columns, h_sub_list(columns), setup = S, budget_s = 300, desc = 'sub_(a, [b, c], columns=%s) on frames with different column sets' % columns))
     for which in ('sum', 'mean', 'count'):
         for n in range(0, N + 1):
             obs.append(Ob('df_%s.%d' % (which, n), h_agg(which, n), setup = S, budget_s = 300 if q else 1500, desc = 'df_%s of two Series of %d rows: union index, NaN skipped' % (which, n)))
